@@ -128,9 +128,8 @@ def r04_2(ctx) -> None:
             ctx.check(okf, "R04.2", fn, cs[0].node, f"{fn.short} :: compress -> encrypt", "the compressed plaintext is not what enc.encrypt receives", "plaintext = zip_.compress(obj.plaintext); enc.encrypt(plaintext, …)",
                       construct="compress before encrypt")
             # the zip model comes from the header's zip value
-            zrecv = norm(zs[0].node.func.value)
-            zd = [d for d in eng.flow._defs(fn).get(zrecv, []) if d[0] == "assign"]
-            ctx.check(len(zd) == 1 and "get_zip(" in norm(zd[0][1]) and "['zip']" in norm(zd[0][1]), "R04.2", fn, zs[0].node, f"{fn.short} :: zip model", "the compression model is not looked up from the zip header",
+            zr = resolve_all(eng, fn, zs[0].node.func.value)
+            ctx.check(len(zr) == 1 and "get_zip(" in zr[0] and "['zip']" in zr[0], "R04.2", fn, zs[0].node, f"{fn.short} :: zip model", "the compression model is not looked up from the zip header",
                       "registry.get_zip(obj.protected['zip'])", construct="zip model lookup (encrypt)")
         else:
             arg = zs[0].node.args[0]
